@@ -39,6 +39,10 @@ PROP = [
  ("GROUP BY a BOOLEAN column failed on the hash-aggregate path", "C04", "GROUP BY a Boolean key answered over Parquet (morsel path) and failed over memory and on the gather path with 'Group by type not supported: Boolean'"),
  ("over no non-NULL input answered TRUE / FALSE on the one-aggregate path", "C08", "`SELECT BOOL_OR(b) FROM t WHERE <nothing matches>` answered false with an unlimited budget and NULL under a memory limit (also over Parquet and with several workers: C04, C07)"),
  ("NULL string gathered from a small join build side became the empty string", "C04", "GROUP BY a string column of a small join build side put the NULL rows into the '' group over Parquet and kept a NULL group from memory (dictionary gather kept NULLs as valid keys to null values)"),
+ ("interpreted predicate evaluator ordered -0.0 below", "C09", "`WHERE v >= 0.0` kept -0.0 rows on the compiled evaluator and dropped them on the interpreted one (arrow totalOrder): 65 rows on one node, 61 from a one-node cluster whose shard filters at the decoder (thorough tier; also C04 `v < 0.0`, `BETWEEN 0.0 AND ..`)"),
+ ("aggregates over a dictionary-encoded column answered NULL", "C09", "a global MIN/MAX over a string column of a small join build side (dictionary-encoded) answered NULL, the one-aggregate path failed; on a shard the sharded table becomes the small build side, so the distributed answer differed from the single-node one (thorough tier)"),
+ ("group with a BOOLEAN key column vanished with its NULL aggregates", "C04", "`SELECT b, s, BOOL_OR(b) .. GROUP BY b, s` over Parquet lost the (NULL, NULL) group when its aggregates were NULL too (generic accessor arm did not mark NULL as u64::MAX); memory kept it (thorough tier)"),
+ ("PackedJoinKeys proved its bounds from one join side", "C04", "a two-column integer join over Parquet matched (6,0) with (5,4): PackedJoinKeys bounded the second key by the one table that had statistics, the other (written without statistics) held a larger value (thorough tier)"),
  ("late cross-process sidecar builder deleted", "C20", "a second process finishing its sidecar build removed the directory another process had just published while readers were opening its files: queries failed with ENOENT"),
 ]
 kf_path = os.path.join(HERE, "known_findings.json")
